@@ -434,7 +434,7 @@ func (w *world) gen(r *vh.RNG, idx int, sl *slot) *tcase {
 		gm := g.grantMsg(sl.S, sl.P, url)
 		t.feat(url[strings.LastIndex(url, ".")+1:])
 		var ms []smsg
-		switch v := r.Intn(4); v {
+		switch v := r.Intn(5); v {
 		case 0:
 			ms = []smsg{gm}
 			t.feat("alone")
@@ -444,6 +444,19 @@ func (w *world) gen(r *vh.RNG, idx int, sl *slot) *tcase {
 				ms[0], ms[1] = ms[1], ms[0]
 			}
 			t.feat("beside-send")
+		case 2: // a harmless exec (or grant) listed before / after the disabled grant
+			ok := wrapExec(sl.S, []sdk.Msg{g.send(sl.S).M}, 1+r.Intn(2))
+			if r.Bool() {
+				ok = g.grantMsg(sl.S, sl.P, urlSend)
+				t.feat("beside-grant-ok")
+			} else {
+				t.feat("beside-exec-ok")
+			}
+			ms = []smsg{ok, gm}
+			if r.Chance(1, 3) {
+				ms[0], ms[1] = ms[1], ms[0]
+				t.feat("after")
+			}
 		default:
 			t.Depth = 1 + r.Intn(6)
 			ms = []smsg{wrapExec(sl.S, []sdk.Msg{gm.M}, t.Depth)}
@@ -472,25 +485,49 @@ func (g *genCtx) nested(inner func(from *vh.Acct) (smsg, string)) *rawTx {
 	}
 	m, kind := inner(from)
 	t.feat(kind)
+	// harmless siblings of the offender, at the innermost level and at the top level: plain sends and
+	// harmless MsgExec / MsgGrant messages (an exec of the grantee's own send needs no grant), before or after
+	harmlessExec := func() sdk.Msg { return wrapExec(grantee, []sdk.Msg{g.send(grantee).M}, 1+r.Intn(2)).M }
 	list := []sdk.Msg{m.M}
-	switch r.Intn(6) {
+	switch r.Intn(9) {
 	case 0:
 		list = []sdk.Msg{g.send(from).M, m.M}
 		t.feat("in:send,x")
 	case 1:
 		list = []sdk.Msg{m.M, g.send(from).M}
 		t.feat("in:x,send")
+	case 2:
+		list = []sdk.Msg{harmlessExec(), m.M}
+		t.feat("in:exec-ok,x")
+	case 3:
+		list = []sdk.Msg{m.M, harmlessExec()}
+		t.feat("in:x,exec-ok")
+	case 4:
+		list = []sdk.Msg{harmlessExec(), g.send(grantee).M, m.M}
+		t.feat("in:exec-ok,send,x")
 	}
 	t.Depth = 1 + r.Intn(6)
 	ex := wrapExec(grantee, list, t.Depth)
 	ms := []smsg{ex}
-	switch r.Intn(8) {
+	switch r.Intn(12) {
 	case 0:
 		ms = []smsg{g.send(grantee), ex}
 		t.feat("top:send,exec")
 	case 1:
 		ms = []smsg{ex, g.send(grantee)}
 		t.feat("top:exec,send")
+	case 2:
+		ms = []smsg{{M: harmlessExec(), A: grantee}, ex}
+		t.feat("top:exec-ok,exec")
+	case 3:
+		ms = []smsg{ex, {M: harmlessExec(), A: grantee}}
+		t.feat("top:exec,exec-ok")
+	case 4:
+		ms = []smsg{g.grantMsg(grantee, g.sl.P, urlSend), ex}
+		t.feat("top:grant-ok,exec")
+	case 5:
+		ms = []smsg{{M: harmlessExec(), A: grantee}, g.send(grantee), ex}
+		t.feat("top:exec-ok,send,exec")
 	}
 	return g.cosmosEnvelope(ms, 800000)
 }
